@@ -7,6 +7,9 @@ TIER="${1:-quick}"; [ $# -gt 0 ] && shift
 for D in "$@"; do
   N=$(basename "$D")
   P=$(python3 -c "import json;print(json.load(open('$D/meta.json'))['property'])")
+  if python3 -c "import json,sys;sys.exit(0 if json.load(open('$D/meta.json')).get('obsolete') else 1)"; then
+    echo "$N ($P): obsolete (its demonstration passes on the repaired tree; see meta.json)"; continue
+  fi
   WT=/var/tmp/seedwt-$N-$$
   git -C /repo worktree add --detach -q "$WT" HEAD 2>/dev/null || { echo "$N: worktree failed"; continue; }
   if git -C "$WT" apply "$PWD/$D/patch.diff" 2>/dev/null; then
